@@ -73,6 +73,7 @@ def w_if_then(body, c): return [If(B(True), [P(c())] + body + [P(c())], els=[P(c
 def w_if_else(body, c): return [If(I(0), [P(c())], els=[P(c())] + body + [P(c())]), P(c())]
 def w_elseif(body, c): return [If(NIL, [P(c())], elifs=[(S(""), [P(c())]), (I(1), [P(c())] + body + [P(c())])], els=[P(c())]), P(c())]
 def w_forin(body, c): return [ForIn("i", L(I(1), I(2), I(3)), [P(c())] + body + [P(c())]), P(c())]
+def w_forchan(body, c): return [ForIn("i", Call("ch", L(I(1), I(2), I(3))), [P(c())] + body + [P(c())]), P(c())]
 def w_cfor(body, c): return [CFor(Let("i", I(0)), Bin("<", Id("i"), I(3)), Inc("i"), [P(c())] + body + [P(c())]), P(Id("i")), P(c())]
 def w_while(body, c): return [Let("n", I(0)), While(Bin("<", Id("n"), I(3)), [Let("n", Bin("+", Id("n"), I(1))), P(c())] + body + [P(c())]), P(c())]
 def w_loop(body, c): return [Let("m", I(0)), Loop([Let("m", Bin("+", Id("m"), I(1))), If(Bin(">", Id("m"), I(3)), [BRK]), P(c())] + body + [P(c())]), P(c())]
@@ -89,7 +90,7 @@ def w_func_arg(body, c):
 def w_module(body, c): return [Module("md", [P(c())] + body + [P(c())]), P(c())]
 
 WRAP_BRANCH = [w_if_then, w_if_else, w_elseif, w_switch_case, w_switch_default]
-WRAP_LOOP = [w_forin, w_cfor, w_while, w_loop]
+WRAP_LOOP = [w_forin, w_forchan, w_cfor, w_while, w_loop]
 WRAP_OTHER = [w_try, w_catch, w_func, w_func_arg]
 WRAPS = WRAP_BRANCH + WRAP_LOOP + WRAP_OTHER
 
@@ -443,6 +444,16 @@ def fam_c09():
             add("defer-hostpanic-%s-%s" % (bn, "".join("X" if o == "pp" else "o" for o in order)), [FnStmt("f", [], ds + [P(2)] + bodyend), Try([P(Call("f")), P(3)], "e", [P(60)]), P(61), Ret(I(0))])
     add("top-defer-hostpanic", [Defer(Call("p", I(1))), Defer(Call("pp", I(2))), Defer(Call("p", I(3))), P(4), Ret(I(5))])
     add("top-defer-hostpanic-body-failed", [Defer(Call("p", I(1))), Defer(Call("pp", I(2))), P(4), Throw(S("body"))])
+    # a script function called back by a Go function through a func type WITHOUT results: an error inside it is an error of the Go call
+    def cb(*body): return Fn(["x"], [P(Id("x"))] + list(body) + [Ret(I(0))])
+    add("callback-ok", [E(Call("pe", cb())), P(9), Ret(I(0))])
+    add("callback-throw", [Try([E(Call("pe", cb(Throw(S("in"))))), P(2)], "e", [P(60)]), P(61), Ret(I(0))])
+    add("callback-throw-second", [Try([E(Call("pe", cb(If(Bin("==", Id("x"), I(2)), [Throw(S("in"))])))), P(2)], "e", [P(60)]), P(61), Ret(I(0))])
+    add("callback-rterr", [Try([E(Call("pe", cb(E(Id("zz"))))), P(2)], "e", [P(60)]), P(61), Ret(I(0))])
+    add("callback-throw-uncaught", [E(Call("pe", cb(Throw(S("in"))))), P(2), Ret(I(0))])
+    add("callback-throw-defers", [FnStmt("f", [], [Defer(Call("p", I(40))), E(Call("pe", cb(Defer(Call("p", I(41))), Throw(S("in"))))), P(2), Ret(I(1))]), Try([P(Call("f"))], "e", [P(60)]), P(61), Ret(I(0))])
+    add("callback-throw-nilco", [P(Nilco(Call("pe", cb(Throw(S("in")))), I(7))), P(61), Ret(I(0))])
+    add("callback-throw-in-loop", [ForIn("i", L(I(1), I(2)), [Try([E(Call("pe", cb(Throw(S("in")))))], "e", [P(60)]), P(62)]), P(61), Ret(I(0))])
     add("hostpanic-in-try", [Try([P(1), E(Call("pp", I(2))), P(3)], "e", [P(4)], f=[P(5)]), P(6), Ret(I(0))])
     add("hostpanic-in-fn", [FnStmt("f", [], [Defer(Call("p", I(1))), E(Call("pp", I(2))), P(3), Ret(I(4))]), Try([P(Call("f"))], "e", [P(5)]), Ret(I(0))])
     # an error raised by the catch block itself is uncaught: nothing after the failing point runs -- not the finally block either
